@@ -362,10 +362,14 @@ Tick ==
   /\ BkSame
   /\ UNCHANGED <<life, upAt, rdy, has, sv, due, pend, nfl, snapN, snapS, mt, net, cnt>>
 
-Step ==
-  \/ \E i \in Inst : Start(i) \/ Stop(i) \/ Kill(i) \/ Ready(i) \/ Maintain(i)
+\* the environment acts between the program's instants (what is due at an instant happens first)
+Env ==
+  \/ \E i \in Inst : Start(i) \/ Stop(i) \/ Kill(i)
   \/ \E a \in Alerts : Post(Up, a) \/ \E i \in Up : Post({i}, a)
   \/ \E i \in Inst, a \in Alerts : Silence(i, a) \/ Expire(i, a)
+Step ==
+  \/ (~Urgent /\ Env)
+  \/ \E i \in Inst : Ready(i) \/ Maintain(i)
   \/ \E i \in Inst, a \in Alerts : FlushStart(i, a) \/ SettleDone(i, a) \/ Dedup(i, a) \/ FlushTimeout(i, a)
   \/ \E m \in net : Deliver(m)
   \/ \E x, y \in Inst : PushPull(x, y)
